@@ -15,6 +15,7 @@ Definition alg (a : N) : hash_alg :=
 
 Inductive kcase :=
 | KKs (a : N) (init commit ctx : string) (psks : list (string * string))
+| KGroup (a : N) (init commit ctx : string) (psks : list (string * string))
 | KPsk (a : N) (psks : list (string * string))
 | KExport (a : N) (exporter label context : string) (len : N)
 | KKey (a : N) (depth : N) (leaf : N) (handshake : bool) (gen : N) (nk nn : N) (enc : string)
@@ -63,6 +64,15 @@ Definition run_k (c : kcase) : list (list N) :=
        derive_secret H e L_confirm; derive_secret H e L_exporter; derive_secret H e L_authentication;
        derive_secret H e L_external; derive_secret H e L_membership; derive_secret H e L_init;
        derive_secret H e L_resumption; derive_secret H e L_sender_data; derive_secret H e L_encryption]
+  | KGroup a init commit ctx psks =>
+      (* what a member's key schedule holds after a real commit: exporter, authentication,
+         external, membership, init, resumption *)
+      let H := alg a in
+      let psk := psk_secret H (upsks psks) in
+      let j := joiner_secret H (unhex init) (unhex commit) (unhex ctx) in
+      let e := epoch_secret H j psk (unhex ctx) in
+      [derive_secret H e L_exporter; derive_secret H e L_authentication; derive_secret H e L_external;
+       derive_secret H e L_membership; derive_secret H e L_init; derive_secret H e L_resumption]
   | KPsk a psks => [psk_secret (alg a) (upsks psks)]
   | KExport a ex label ctx len => [mls_exporter (alg a) (unhex ex) (unhex label) (unhex ctx) (N.to_nat len)]
   | KKey a d leaf hs gen nk nn enc =>
